@@ -24,6 +24,8 @@ def run(rep):
     rep.guard(e7, rep, w)
     rep.guard(e8, rep, w)
     rep.guard(e9, rep, w)
+    rep.guard(e10, rep, w)
+    rep.guard(e11, rep, w)
     import c11
     rep.guard(c11.i1, rep, w)    # `==` on strings is pointer identity: every string an operator produces has to come out of the intern table
     import c03
@@ -403,3 +405,159 @@ def _scoped_pair_state(w, f):
                     if n in ('std::thread::LocalKey::with', 'std::thread::LocalKey::try_with') and tuple(t['f'].get('a', [])[:1]) in keys:
                         return True
     return False
+
+
+def e10(rep, w):
+    """an operator that rejects operands by their kind looks at the kind of *each* operand on every path that produces a result. (Stated as a
+    consistency rule so that operands of unconstrained kind - the value an index assignment stores - are not demanded: an operand whose kind
+    some successful path examines has to be examined on every successful path.) A fast path that recognises one operand and hands back or
+    combines the other unseen (`"" + x` answering x) gives a value where the operator's definition gives a TypeError."""
+    r = rep.rule('E10', 'operators that reject operands by kind examine the kind of every operand they constrain on every path that yields a result', floor=4)
+    c = w.yarel
+    dmap = {}
+    for f in sorted(c.fns.values(), key=lambda x: x.path):
+        if not f.path.startswith(VM) or f.kind == 'Closure':
+            continue
+        pops = [(bi, t) for bi, t in f.calls() if callee_name(t) == VM + 'pop']
+        if not pops:
+            continue
+        type_error = any(s_.get('r', {}).get('rv') == 'agg' and (s_['r'].get('adt') or '').endswith('ErrorKind') and s_['r'].get('v') == 'TypeError'
+                         for b in f.blocks for s_ in b['s'])
+        pushes = [(bi, t) for bi, t in f.calls() if callee_name(t) == VM + 'push']
+        if not type_error or not pushes:
+            continue
+        org = origins(f)
+        popblocks = [bi for bi, _ in pops]
+
+        def operand_of_local(l, seen=()):
+            return {q[0][1] for q in org.get(l, ()) if q[0][0] == 'call' and q[0][1] in popblocks}
+
+        def operand_of_place(pl):
+            if pl is None:
+                return set()
+            proj = pl.get('p') or []
+            if proj and isinstance(proj[0], dict) and 'f' in proj[0]:
+                # a field of a local tuple built from the operands: (a, b).0
+                for b in f.blocks:
+                    for s_ in b['s']:
+                        rr = s_.get('r', {})
+                        if s_.get('d', {}).get('l') == pl['l'] and not s_['d'].get('p') and rr.get('rv') == 'agg' and rr.get('tuple'):
+                            ops = rr['ops']
+                            if proj[0]['f'] < len(ops):
+                                return operand_of_place(op_place(ops[proj[0]['f']]))
+            return operand_of_local(pl['l'])
+        examined = {}
+        for bi in f.normal_blocks():
+            ex = set()
+            b = f.blocks[bi]
+            for s_ in b['s']:
+                rr = s_.get('r', {})
+                if rr.get('rv') == 'discr':
+                    ex |= operand_of_place(rr['p'])
+            t = b['t']
+            if t['t'] == 'call' and callee_name(t) not in (VM + 'push', VM + 'pop'):
+                for a in t['args']:
+                    pl = op_place(a)
+                    if pl is not None:
+                        ops_ = operand_of_place(pl)
+                        if len(ops_) == 1:       # (a temporary shared by two match alternatives stands for either operand: no evidence)
+                            ex |= ops_
+            examined[bi] = ex
+        # must-analysis: operands examined on every path to the entry of a block
+        nb = sorted(f.normal_blocks())
+        preds = {b: [] for b in nb}
+        for b in nb:
+            for s2 in f.succs()[b]:
+                if s2 in preds:
+                    preds[s2].append(b)
+        allops = set(popblocks)
+        IN = {b: (set() if b == 0 else set(allops)) for b in nb}
+        changed = True
+        while changed:
+            changed = False
+            for b in nb:
+                if b == 0:
+                    continue
+                ps = [IN[p] | examined[p] for p in preds[b]]
+                new = set.intersection(*ps) if ps else set()
+                if new != IN[b]:
+                    IN[b] = new
+                    changed = True
+        dom = f.dominators()
+        at_push = []
+        for bi, t in pushes:
+            avail = {pb for pb in popblocks if pb in dom.get(bi, ())}
+            at_push.append((bi, t, avail, (IN[bi] | examined[bi]) & avail))
+        cared = set()
+        for (_, _, avail, ex) in at_push:
+            cared |= ex
+        for k, pb in enumerate(sorted(popblocks, key=lambda b_: len(dom.get(b_, ())))):
+            if pb not in cared:
+                continue
+            miss = [bi for (bi, t, avail, ex) in at_push if pb in avail and pb not in ex]
+            r.check(not miss, '%s / operand popped #%d is examined before every result' % (f.path, k + 1),
+                    '%s examines the kind of the operand it pops #%d on some paths that produce a result, but there is a path to a result on which that '
+                    'operand is never looked at: for some operand kinds the operator answers with a value where its definition gives a TypeError'
+                    % (f.path.rsplit('::', 1)[-1], k + 1), f.loc(f.blocks[miss[0]]['t'].get('sp')) if miss else f.loc())
+
+
+def e11(rep, w):
+    """the arithmetic operators are the IEEE operations on the two f64 payloads: in the function handed to binary_op_impl for an opcode,
+    + - * / % are applied to f64 operands only; integer arithmetic appears only as the bit operations (& | ^ << >>), which are defined on the
+    truncated integers. An integer fast path for an arithmetic operator differs from the float operation in the sign of a zero result, beyond
+    2^63 and at the most negative value (where it panics)."""
+    r = rep.rule('E11', 'the functions handed to binary_op_impl apply + - * / % to f64 operands only (integer operations there are bit operations)', floor=9)
+    runf = w.require_fn(VM + 'run', 'C05')
+    handed = set()
+    for bi, t in runf.calls():
+        if callee_name(t) == VM + 'binary_op_impl':
+            for a in t['args'][1:]:
+                k = op_const(a)
+                pl = op_place(a)
+                ty = None
+                if k is not None:
+                    ty = runf.crate.ty(k['t'])
+                elif pl is not None:
+                    ty = runf.crate.ty(runf.local_ty(pl['l']))
+                    # a closure converted to a fn pointer first: follow the cast
+                    for b in runf.blocks:
+                        for s_ in b['s']:
+                            if s_.get('d', {}).get('l') == pl['l'] and s_.get('r', {}).get('rv') == 'cast':
+                                src = op_place(s_['r']['o'])
+                                kk = op_const(s_['r']['o'])
+                                ty = runf.crate.ty(runf.local_ty(src['l'])) if src is not None else (runf.crate.ty(kk['t']) if kk is not None else ty)
+                if ty and ty.get('k') in ('closure', 'fndef'):
+                    handed.add(ty['n'])
+    ARITH = ('Add', 'Sub', 'Mul', 'Div', 'Rem')
+    for name in sorted(handed):
+        f = w.fn(name)
+        if f is None:
+            r.bad('%s / body' % name, 'operator function %s has no analysable body' % name)
+            continue
+        bad = []
+        bodies = [f]
+        for _ in range(2):       # helpers of the workspace the operator function calls (kept as units when they are public)
+            for g in list(bodies):
+                for _b, t in g.calls():
+                    h = w.fn(callee_name(t) or '')
+                    if h is not None and h not in bodies and h.path.startswith('yarel::') and not h.path.startswith('yarel::value::Value'):
+                        bodies.append(h)
+        for b in [b_ for g in bodies for b_ in g.blocks]:
+            f = [g for g in bodies if b in g.blocks][0]
+            for s_ in b['s']:
+                rr = s_.get('r', {})
+                if rr.get('rv') == 'bin' and rr['op'].replace('WithOverflow', '').replace('Unchecked', '') in ARITH:
+                    pa = op_place(rr['a']) or op_place(rr['b'])
+                    ka = op_const(rr['a'])
+                    ts = f.crate.tstr(f.local_ty(pa['l'])) if pa is not None and not pa.get('p') else (f.crate.tstr(ka['t']) if ka is not None else '?')
+                    if ts != 'f64':
+                        bad.append('%s on %s' % (rr['op'], ts))
+        f = bodies[0]
+        for _, t in [c_ for g in bodies for c_ in g.calls()]:
+            n_ = strip_generics(callee_name(t) or '')
+            if any(n_.endswith('::' + m) for m in ('wrapping_add', 'wrapping_sub', 'wrapping_mul', 'wrapping_rem', 'wrapping_div', 'checked_add', 'checked_sub', 'checked_mul',
+                                                   'checked_rem', 'checked_div', 'rem_euclid', 'div_euclid', 'pow', 'powi')):
+                bad.append(n_.rsplit('::', 1)[-1])
+        r.check(not bad, '%s / arithmetic on f64 only' % name,
+                'the operator function %s computes with %s: an arithmetic operator takes an integer route for some operands, which differs from the IEEE operation '
+                '(sign of a zero result, values beyond 2^63, a panic at the most negative integer)' % (name, ', '.join(sorted(set(bad)))), f.loc())
